@@ -1103,17 +1103,254 @@ example :
     countCell (collectStep intOps pop ops) 0 0 = 2 ∧ aggCell (collectStep intOps pop ops) 0 0 7 .total = some 7 ∧
     countCell (collect intOps (pop.map (·.agent))) 0 0 = 3 := by decide
 
+/-! ### wave 6 (2a): heterogeneous groups — what the code reports for the mean, for EVERY population
+
+`mean = total / count` is assigned inside the loop each time an agent carrying the property is folded in, with the
+group's count *at that moment*.  So the reported mean is `sum of the values / position (1-based, within the group, in
+list order) of the last agent that carries the property`. -/
+
+section Hetero
+variable {α : Type}
+
+/-- 1-based position, within the group, of the last agent that carries `p` as a numeric property (0 = nobody). -/
+def lastCarrier (p : Nat) : List (Agent α) → Nat
+  | [] => 0
+  | a :: rest =>
+    if lastCarrier p rest = 0 then (if (numericOf a p).isEmpty then 0 else 1) else lastCarrier p rest + 1
+
+theorem lastC_pupdates (p : Nat) : ∀ (ms : List (Agent α)) (d c : Nat),
+    lastC d (pupdates p c ms) = if lastCarrier p ms = 0 then d else c + lastCarrier p ms := by
+  intro ms
+  induction ms with
+  | nil => intro d c; simp [pupdates, lastC, lastCarrier]
+  | cons a rest ih =>
+    intro d c
+    simp only [pupdates, lastC_append, ih]
+    by_cases hr : lastCarrier p rest = 0
+    · by_cases ha : (numericOf a p).isEmpty = true
+      · have : numericOf a p = [] := by simpa using ha
+        simp [lastCarrier, hr, ha, this, lastC]
+      · have hne : numericOf a p ≠ [] := by simpa using ha
+        simp [lastCarrier, hr, ha, lastC_map d (c + 1) _ hne]
+    · simp [lastCarrier, hr]; omega
+
+theorem lastCarrier_le (p : Nat) : ∀ ms : List (Agent α), lastCarrier p ms ≤ ms.length := by
+  intro ms
+  induction ms with
+  | nil => simp [lastCarrier]
+  | cons a rest ih =>
+    simp only [lastCarrier, List.length_cons]
+    split
+    · split <;> omega
+    · omega
+
+theorem lastCarrier_pos (p : Nat) : ∀ ms : List (Agent α), valuesOf ms p ≠ [] → 0 < lastCarrier p ms := by
+  intro ms
+  induction ms with
+  | nil => intro h; simp [valuesOf] at h
+  | cons a rest ih =>
+    intro h
+    simp only [lastCarrier]
+    by_cases hr : lastCarrier p rest = 0
+    · have hrest : valuesOf rest p = [] := by
+        by_contra hne; have := ih hne; omega
+      have ha : numericOf a p ≠ [] := by
+        intro ha; apply h; simp [valuesOf, List.flatMap_cons, ha] at hrest ⊢; exact hrest
+      have : (numericOf a p).isEmpty = false := by simpa using ha
+      simp [hr, this]
+    · simp [hr]
+
+/-- carrier-generic, every population: the denominator of the reported mean is the position of the last carrier. -/
+theorem meanDen_lastCarrier (o : Ops α) (agents : List (Agent α)) (ty st p : Nat) (x : α × Nat)
+    (h : meanCell (collect o agents) ty st p = some x) :
+    x.2 = lastCarrier p (members agents (ty, st)) := by
+  obtain ⟨hnone, hsome⟩ := stat_spec o agents (ty, st)
+  by_cases hm : members agents (ty, st) = []
+  · simp [meanCell, hnone hm] at h
+  · obtain ⟨g, hg, _, hp⟩ := hsome hm
+    have hp' := hp p
+    cases hv : valuesOf (members agents (ty, st)) p with
+    | nil => rw [hv] at hp'; simp [meanCell, hg, hp'] at h
+    | cons v vs =>
+      rw [hv] at hp'
+      obtain ⟨r, hr, _, _, _, _, hmd⟩ := hp'
+      simp only [meanCell, hg, hr, Option.map_some, Option.some.injEq] at h
+      subst h
+      simp only [hmd, lastC_pupdates]
+      split <;> simp_all
+
+end Hetero
+
+/-- **the mean for every population over an ordered field** (no homogeneity hypothesis): whenever some agent of the
+group carries the property, the reported mean is `sum of the values / position of the last carrier in the group`.
+With the last agent of the group carrying it, that is `sum / number of agents of the group`; on a homogeneous group
+this is `FieldClauses.mean`. -/
+theorem mean_general {K : Type} [Field K] [LinearOrder K] [IsStrictOrderedRing K]
+    (agents : List (Agent K)) (ty st p : Nat) (hne : valuesOf (members agents (ty, st)) p ≠ []) :
+    meanVal (meanCell (collect fieldOps agents) ty st p) =
+      some ((valuesOf (members agents (ty, st)) p).sum / ((lastCarrier p (members agents (ty, st)) : Nat) : K)) ∧
+    0 < lastCarrier p (members agents (ty, st)) ∧
+    lastCarrier p (members agents (ty, st)) ≤ (members agents (ty, st)).length := by
+  refine ⟨?_, lastCarrier_pos p _ hne, lastCarrier_le p _⟩
+  obtain ⟨_, hsome⟩ := stat_spec fieldOps agents (ty, st)
+  have hm : members agents (ty, st) ≠ [] := by intro h; apply hne; simp [h, valuesOf]
+  obtain ⟨g, hg, _, hp⟩ := hsome hm
+  have hp' := hp p
+  cases hv : valuesOf (members agents (ty, st)) p with
+  | nil => exact absurd hv hne
+  | cons v vs =>
+    rw [hv] at hp'
+    obtain ⟨r, hr, ht, _, _, hmn, _⟩ := hp'
+    have hmc : meanCell (collect fieldOps agents) ty st p = some (r.meanNum, r.meanDen) := by simp [meanCell, hg, hr]
+    have hden := meanDen_lastCarrier fieldOps agents ty st p _ hmc
+    simp only at hden
+    rw [hmc]
+    simp only [meanVal, Option.map_some, hmn, ht, hden]
+    rw [foldl_add_sum_f]; simp [fieldOps]
+
+/-- exactly when the reported mean is the arithmetic mean of the values (the property's right-hand side): iff the last
+carrier's position equals the number of values — e.g. every agent of the group carries the property once (homogeneous),
+or the carriers come first in the list; a group whose last carrier is preceded by an agent lacking the property is
+**out of domain**: there the reported number is `sum / position` and depends on the list order (sum ≠ 0). -/
+theorem mean_is_arithmetic_iff {K : Type} [Field K] [LinearOrder K] [IsStrictOrderedRing K]
+    (agents : List (Agent K)) (ty st p : Nat) (hne : valuesOf (members agents (ty, st)) p ≠ [])
+    (hs : (valuesOf (members agents (ty, st)) p).sum ≠ 0) :
+    meanVal (meanCell (collect fieldOps agents) ty st p) =
+        some ((valuesOf (members agents (ty, st)) p).sum / ((valuesOf (members agents (ty, st)) p).length : K)) ↔
+      lastCarrier p (members agents (ty, st)) = (valuesOf (members agents (ty, st)) p).length := by
+  obtain ⟨hm, hpos, _⟩ := mean_general agents ty st p hne
+  rw [hm]
+  have hlen : 0 < (valuesOf (members agents (ty, st)) p).length := List.length_pos_iff.mpr hne
+  have h1 : ((lastCarrier p (members agents (ty, st)) : Nat) : K) ≠ 0 := by exact_mod_cast (by omega : lastCarrier p (members agents (ty, st)) ≠ 0)
+  have h2 : (((valuesOf (members agents (ty, st)) p).length : Nat) : K) ≠ 0 := by exact_mod_cast (by omega : (valuesOf (members agents (ty, st)) p).length ≠ 0)
+  constructor
+  · intro h
+    simp only [Option.some.injEq] at h
+    have := (div_eq_div_iff h1 h2).mp h
+    have h3 : ((valuesOf (members agents (ty, st)) p).length : K) = (lastCarrier p (members agents (ty, st)) : K) :=
+      mul_left_cancel₀ hs this
+    exact_mod_cast h3.symm
+  · intro h; rw [h]
+
+/-- x = 4 carried by the first of three agents: reported 4/1; carried by the last: 4/3; arithmetic mean over the carriers: 4. -/
+example : lastCarrier 7 ([⟨0, 0, [⟨7, true, 4⟩]⟩, ⟨0, 0, []⟩, ⟨0, 0, []⟩] : List (Agent ℚ)) = 1 ∧
+    lastCarrier 7 ([⟨0, 0, []⟩, ⟨0, 0, []⟩, ⟨0, 0, [⟨7, true, 4⟩]⟩] : List (Agent ℚ)) = 3 := by decide
+
+/-! ### wave 6 (2b): requests over several agent types -/
+
+section MultiType
+variable {α : Type}
+
+/-- the request restricted to one of its agent types. -/
+def restrict (sel : Sel) (ag : Nat) : Sel := { sel with agents := [ag] }
+
+theorem rowOf_restrict (sel : Sel) (ag : Nat) (aggs : List Agg4) (s : Stats α) (ag' : Nat) :
+    rowOf (restrict sel ag) aggs s ag' = rowOf sel aggs s ag' := rfl
+
+theorem raises_restrict (sel : Sel) (aggs : List Agg4) (data : History α) (ag : Nat) (hag : ag ∈ sel.agents)
+    (h : raises sel aggs data = false) : raises (restrict sel ag) aggs data = false := by
+  cases hr : raises (restrict sel ag) aggs data with
+  | false => rfl
+  | true =>
+    exfalso
+    have : raises sel aggs data = true := by
+      simp only [raises, restrict, Bool.or_eq_true, Bool.and_eq_true, List.any_eq_true, List.mem_singleton] at hr ⊢
+      rcases hr with ⟨h1, x, hx, a, rfl, ha⟩ | ⟨x, hx, a, rfl, y, hy, hye⟩
+      · exact Or.inl ⟨h1, x, hx, a, hag, ha⟩
+      · exact Or.inr ⟨x, hx, a, hag, y, hy, hye⟩
+    rw [h] at this; cases this
+
+/-- if the request over several types returns, so does the request for each single type. -/
+theorem runOut_restrict (fmt : Fmt) (sel : Sel) (data : History α) (out : Out α) (h : runOut fmt sel data = some out)
+    (ag : Nat) (hag : ag ∈ sel.agents) : ∃ out1, runOut fmt (restrict sel ag) data = some out1 := by
+  simp only [runOut] at h ⊢
+  by_cases hr : raises sel (effAggs fmt sel.aggs) data = true
+  · simp [hr] at h
+  · have hr' : raises sel (effAggs fmt sel.aggs) data = false := by simpa using hr
+    have := raises_restrict sel (effAggs fmt sel.aggs) data ag hag hr'
+    simp only [restrict] at this ⊢
+    simp only [this, Bool.false_eq_true, if_false]
+    split <;> exact ⟨_, rfl⟩
+
+/-- **cross-type clause.** The result of a request over several agent types is, cell by cell, the union of the
+per-type results: every selected cell of type `ag` equals the cell of the single-type request — in every format,
+whatever the other types are, in whatever order the types are listed, also at times at which another type (or this
+one) has no agent (0). -/
+theorem multi_type_union (fmt : Fmt) (sel : Sel) (data : History α) (out out1 : Out α)
+    (h : runOut fmt sel data = some out) (ag : Nat) (hag : ag ∈ sel.agents)
+    (h1 : runOut fmt (restrict sel ag) data = some out1) (c : Col) (hc : Selected sel c) (t : Nat) :
+    readOut out ag c t = readOut out1 ag c t :=
+  selection_indep fmt fmt sel (restrict sel ag) data out out1 h h1 ag hag (by simp [restrict]) c hc hc t
+
+/-- listing order (or repetition) of the agent types is immaterial. -/
+theorem listing_order_indep (f1 f2 : Fmt) (s1 s2 : Sel) (data : History α) (o1 o2 : Out α)
+    (hst : s2.states = s1.states) (hpr : s2.props = s1.props) (hag : s2.aggs = s1.aggs)
+    (hmem : ∀ a, a ∈ s2.agents ↔ a ∈ s1.agents)
+    (h1 : runOut f1 s1 data = some o1) (h2 : runOut f2 s2 data = some o2)
+    (ag : Nat) (ha : ag ∈ s1.agents) (c : Col) (hc : Selected s1 c) (t : Nat) :
+    readOut o1 ag c t = readOut o2 ag c t :=
+  selection_indep f1 f2 s1 s2 data o1 o2 h1 h2 ag ha ((hmem ag).mpr ha) c hc
+    (by simpa [Selected, hst, hpr, hag] using hc) t
+
+/-- the df frame's row index is the union of the per-type row indices. -/
+theorem df_index_union (sel : Sel) (aggs : List Agg4) (data : History α) (ag : Nat) (t : Nat) :
+    t ∈ outIndex .df sel aggs data ag ↔ ∃ ag' ∈ sel.agents, t ∈ (getDf sel aggs data ag').index := by
+  simp [outIndex, List.mem_flatMap]
+
+/-- the defective assembly the cross-type clause excludes: every type's columns cut to the FIRST listed type's row index. -/
+def runOutFirstIndex (sel : Sel) (aggs : List Agg4) (data : History α) : Out α :=
+  let idx := match sel.agents with | [] => [] | a :: _ => (getDf sel aggs data a).index
+  (outKeys sel aggs data).map (fun k => (k, series (getDf sel aggs data k.1) idx k.2))
+
+end MultiType
+
+/-- witness for first-type index alignment: type 0 has an agent at t = 1 only, type 1 at t = 1 and t = 2.  Listed as
+[0, 1], the frame cut to type 0's rows loses type 1's count at t = 2 (reads 0, the population has 1); listed as [1, 0]
+it is right; the model of the code (`runOut`, union index) reports 1 in both orders. -/
+theorem first_type_alignment_witness :
+    let data : History Int := histOf intOps [(1, [⟨0, 0, []⟩, ⟨1, 0, []⟩]), (2, [⟨1, 0, []⟩])]
+    readOut (runOutFirstIndex ⟨[0, 1], [0], [], []⟩ [] data) 1 ⟨0, none⟩ 2 = .zero ∧
+    pointCell data 1 ⟨0, none⟩ 2 = .cnt 1 ∧
+    readOut (runOutFirstIndex ⟨[1, 0], [0], [], []⟩ [] data) 1 ⟨0, none⟩ 2 = .cnt 1 ∧
+    (∃ o, runOut .df ⟨[0, 1], [0], [], []⟩ data = some o ∧ readOut o 1 ⟨0, none⟩ 2 = .cnt 1) ∧
+    (∃ o, runOut .df ⟨[1, 0], [0], [], []⟩ data = some o ∧ readOut o 1 ⟨0, none⟩ 2 = .cnt 1) := by
+  refine ⟨by decide, by decide, by decide, ⟨_, rfl, by decide⟩, ⟨_, rfl, by decide⟩⟩
+
 /-- The full property: the aggregates over `Int` (wave 1), over every ordered field with the mean as a quotient
 (instantiated at ℚ), and the selection / format independence of the reported cells. -/
-def C13_full : Prop := C13_int ∧ C13_field ℚ ∧ C13_selection
+def C13_mean_every_population : Prop :=
+  ∀ (agents : List (Agent ℚ)) (ty st p : Nat), valuesOf (members agents (ty, st)) p ≠ [] →
+    meanVal (meanCell (collect fieldOps agents) ty st p) =
+      some ((valuesOf (members agents (ty, st)) p).sum / ((lastCarrier p (members agents (ty, st)) : Nat) : ℚ)) ∧
+    0 < lastCarrier p (members agents (ty, st)) ∧ lastCarrier p (members agents (ty, st)) ≤ (members agents (ty, st)).length
 
-theorem C13_full_proved : C13_full := ⟨C13_int_proved, C13_rat, C13_selection_proved⟩
+def C13_multi_type : Prop :=
+  ∀ (α : Type) (fmt : Fmt) (sel : Sel) (data : History α) (out : Out α), runOut fmt sel data = some out →
+    ∀ ag ∈ sel.agents, ∃ out1, runOut fmt (restrict sel ag) data = some out1 ∧
+      ∀ c, Selected sel c → ∀ t, readOut out ag c t = readOut out1 ag c t
+
+theorem C13_multi_type_proved : C13_multi_type := by
+  intro α fmt sel data out h ag hag
+  obtain ⟨out1, h1⟩ := runOut_restrict fmt sel data out h ag hag
+  exact ⟨out1, h1, fun c hc t => multi_type_union fmt sel data out out1 h ag hag h1 c hc t⟩
+
+def C13_full : Prop := C13_int ∧ C13_field ℚ ∧ C13_selection ∧ C13_mean_every_population ∧ C13_multi_type
+
+theorem C13_full_proved : C13_full :=
+  ⟨C13_int_proved, C13_rat, C13_selection_proved, fun agents ty st p h => mean_general agents ty st p h, C13_multi_type_proved⟩
 
 #print axioms C13_int_proved
 #print axioms C13_field_proved
 #print axioms C13_rat
 #print axioms C13_full_proved
 #print axioms C13_selection_proved
+#print axioms mean_general
+#print axioms mean_is_arithmetic_iff
+#print axioms meanDen_lastCarrier
+#print axioms multi_type_union
+#print axioms listing_order_indep
+#print axioms runOut_restrict
+#print axioms first_type_alignment_witness
 #print axioms collectStep_count
 #print axioms deleted_not_live
 #print axioms selection_spec
